@@ -13,7 +13,7 @@ import (
 func init() { registry["C10"] = checkC10 }
 
 func checkC10(c *Check) {
-	c.Explanation = "Decided on all paths of the manifest acceptance code: (R1) the manager accepts a submission (nil) only on paths dominated by: hash of the submitted manifest equals the expected version, where the expected version is the latest version update if any and the fetched deployment's version otherwise; stand-alone manifest validation ok; cross-validation against the fetched deployment's groups ok; (R2) the hash covers everything: every struct field reachable from manifest.Manifest is exported, has no json:\"-\" tag and no map type, so the sorted-JSON encoding is structural and complete, and the hash is sha256 over that encoding; (R3) the cross-validation compares group count, group names, every dimension of the resource units (each ResourceUnits field takes part in a comparison with a rejecting exit), replica counts through the fill/drain arithmetic with both leftover checks, and both endpoint kinds; the search over manifest entries always starts at the first entry (a necessary condition for order-independence). No two fields under the manifest share a JSON name; (*Attribute).Equal pairs key with key and value with value."
+	c.Explanation = "Decided on all paths of the manifest acceptance code: (R1) the manager accepts a submission (nil) only on paths dominated by: hash of the submitted manifest equals the expected version, where the expected version is the latest version update if any and the fetched deployment's version otherwise; stand-alone manifest validation ok; cross-validation against the fetched deployment's groups ok; (R2) the hash covers everything: every struct field reachable from manifest.Manifest is exported, has no json:\"-\" tag and no map type, so the sorted-JSON encoding is structural and complete, and the hash is sha256 over that encoding; (R3) the cross-validation compares group count, group names, every dimension of the resource units (each ResourceUnits field takes part in a comparison with a rejecting exit), replica counts through the fill/drain arithmetic with both leftover checks, and both endpoint kinds; the search over manifest entries always starts at the first entry (a necessary condition for order-independence). No two fields under the manifest share a JSON name; (*Attribute).Equal pairs key with key and value with value. The manifest manager's inbox methods send to its loop without a default case."
 	c.NotDecided = "completeness of the greedy matcher (accepting every equal multiset) as an algorithmic equivalence; collision resistance of SHA-256"
 	l := c.L
 
@@ -381,7 +381,7 @@ func (c *Check) manifestVersionRule(rule string) {
 			okEvery = true
 			pos = st.Pos()
 			for _, a := range factsAt(st.Block()) {
-				if a.If != nil && (a.If.Block() == caseBlk || caseBlk.Dominates(a.If.Block())) {
+				if a.If != nil && (a.If.Block() == caseBlk || domSame(caseBlk, a.If.Block())) {
 					okEvery = false
 					why = "the update is recorded only when " + a.Op + " " + short(Sym(a.X)) + ": updates arriving otherwise are forgotten and a superseded version stays expected"
 				}
